@@ -7,6 +7,33 @@ import ProfiVerif.Lemmas.TimedRingNStep
 namespace PV
 open StationGap TokenRing
 
+/-- Phases of the station whose turn it is: `hold p1` it accepted the token at `p1`; `holdT` it has sent an
+application telegram that expects no reply and keeps the token; `await a` it has sent an application request to
+`a` and waits for the reply; `gap g` it has sent a GAP request to `g`; `pass` it has passed the token on. -/
+inductive PhaseN
+  | hold (p1 : Int)
+  | holdT
+  | gap (g : Nat)
+  | pass
+  | await (a : Nat)
+
+/-- Predicted end of a transmission (what the sender stamps). -/
+def tEnd (cfg : Cfg) (t : Transmission) : Int := t.start + ((bitsToTime cfg.rate (11 * t.bytes.length) : Nat) : Int)
+
+theorem tEnd_cEnd (cfg : Cfg) (hr : 0 < cfg.rate) (t : Transmission) (hn : 0 < t.bytes.length) :
+    tEnd cfg t ≤ cEnd cfg t ∧ cEnd cfg t ≤ tEnd cfg t + 1 := by
+  unfold tEnd cEnd Cfg.ce bitsToTime
+  have e : 11 * (t.bytes.length - 1 + 1) * 1000000 = 11 * t.bytes.length * 1000000 := by
+    have : t.bytes.length - 1 + 1 = t.bytes.length := by omega
+    rw [this]
+  rw [e]
+  have h1 := Cfg.floor_le_ceil cfg.rate (11 * t.bytes.length * 1000000) hr
+  have h2 := Cfg.ceil_le_floor_succ cfg.rate (11 * t.bytes.length * 1000000) hr
+  omega
+
+/-- An application telegram. -/
+def IsAppTx (t : Transmission) : Prop := ∃ h pdu, t.bytes = frameSpec h pdu
+
 /-- What the invariant talks about: `x` the station whose turn it is (record `sx`), the log `pre ++ [tr]`,
 its phase, the horizon `H` (the next transmission starts no later), the lower bound `Lo` (and later than
 this), the time `tl` of the last event. -/
@@ -15,7 +42,7 @@ structure NView where
   sx : NetStation
   pre : List Transmission
   tr : Transmission
-  ph : Phase
+  ph : PhaseN
   H : Int
   Lo : Int
   tl : Int
@@ -33,6 +60,14 @@ def PhaseOkN (cfg : Cfg) (M : List Nat) (adr : Nat → Nat) (N : Nat) (v : NView
     seen v.x ≤ v.tr.start + (cfg.b66 : Nat) + (cfg.slot : Nat) ∧
     v.H = v.tr.start + (cfg.b66 : Nat) + (cfg.slot : Nat) + (cfg.P : Nat) ∧
     v.Lo = v.tr.start + (cfg.b66 : Nat) + (cfg.slot : Nat)
+  | .holdT =>
+    v.tr.sender = v.x ∧ IsAppTx v.tr ∧ (∃ d f, v.sx.s.st = .useToken d f) ∧
+    v.sx.s.lastBusActivity = some (tEnd cfg v.tr) ∧ v.tr.start ≤ seen v.x ∧ seen v.x ≤ tEnd cfg v.tr + (cfg.b33 : Nat) ∧
+    v.H = tEnd cfg v.tr + (cfg.b33 : Nat) + (cfg.P : Nat) ∧ v.Lo = tEnd cfg v.tr + (cfg.b33 : Nat)
+  | .await a =>
+    v.tr.sender = v.x ∧ IsAppTx v.tr ∧ (∃ d, v.sx.s.st = .awaitData a d) ∧
+    v.sx.s.lastBusActivity = some (tEnd cfg v.tr) ∧ v.tr.start ≤ seen v.x ∧ seen v.x ≤ tEnd cfg v.tr + (cfg.slot : Nat) ∧
+    v.H = tEnd cfg v.tr + (cfg.slot : Nat) + (cfg.P : Nat) ∧ v.Lo = tEnd cfg v.tr + (cfg.slot : Nat)
   | .pass =>
     v.tr.sender = v.x ∧ v.tr.bytes = tokenBytes (cycSucc (adr v.x) M) (adr v.x) ∧ v.sx.s.st = .checkTokenPass .first ∧
     v.sx.s.lastBusActivity = some (v.tr.start + (cfg.b33 : Nat)) ∧ v.tr.start ≤ seen v.x ∧
@@ -90,19 +125,39 @@ theorem NInv.horizon {cfg : Cfg} {M : List Nat} {adr : Nat → Nat} {n : Net} {v
     rw [hph] at hP
     obtain ⟨-, -, -, -, -, hH, -, -⟩ := hP
     omega
+  | holdT =>
+    rw [hph] at hP
+    obtain ⟨hs, ⟨h0, pdu, hb⟩, -, -, -, -, hH, -⟩ := hP
+    have hpos := (TxKind.wire h.ring (h.log.kinds v.tr (by rw [h.txs]; simp))).2.2
+    have := (tEnd_cEnd cfg hok.rate v.tr hpos).1
+    omega
+  | await a =>
+    rw [hph] at hP
+    obtain ⟨hs, ⟨h0, pdu, hb⟩, -, -, -, -, hH, -⟩ := hP
+    have hpos := (TxKind.wire h.ring (h.log.kinds v.tr (by rw [h.txs]; simp))).2.2
+    have := (tEnd_cEnd cfg hok.rate v.tr hpos).1
+    omega
 
 /-- Address of the station whose turn it is to transmit next. -/
 def NView.turn (v : NView) (M : List Nat) (adr : Nat → Nat) : Nat :=
   match v.ph with | .pass => cycSucc (adr v.x) M | _ => adr v.x
 
-/-- Outcome of one event. -/
+/-- Outcome of one event: the poll returns regularly and the invariant holds again; either nothing was
+transmitted (same last transmission, same turn; the phase is unchanged or — the token was accepted — a fresh
+`hold`), or the station whose turn it is transmitted `b`, later than 33 bit times after the end of the
+previous transmission (after an own application telegram: not earlier than 33 bit times after its predicted
+end, i.e. up to the 1 µs rounding): a GAP request to a non-member (turn stays), the token to the successor
+(turn passes on), or an application telegram from one of its scripts (turn stays). -/
 def NStepOut (cfg : Cfg) (M : List Nat) (adr : Nat → Nat) (n : Net) (v : NView) (i : Nat) (now : Int) : Prop :=
   ∃ n' v' inc c, n.poll i now = (n', inc, some (.ok c)) ∧ NInv cfg M adr n' v' ∧ v'.tl = now ∧
-    ((c.tx = none ∧ v'.tr = v.tr ∧ v'.turn M adr = v.turn M adr) ∨
-     (∃ b, c.tx = some b ∧ adr i = v.turn M adr ∧ cEnd cfg v.tr + (cfg.b33 : Nat) < now ∧
+    ((c.tx = none ∧ v'.tr = v.tr ∧ v'.turn M adr = v.turn M adr ∧ (v'.ph = v.ph ∨ ∃ p, v'.ph = .hold p)) ∨
+     (∃ b, c.tx = some b ∧ adr i = v.turn M adr ∧
+        (cEnd cfg v.tr + (cfg.b33 : Nat) < now ∨ (v.ph = .holdT ∧ cEnd cfg v.tr + (cfg.b33 : Nat) ≤ now)) ∧
         v'.tr = { start := now, sender := i, bytes := b, dropped := false } ∧
-        ((∃ g, b = statusRequestBytes g (adr i) ∧ g ∉ M ∧ v'.turn M adr = adr i) ∨
-         (b = tokenBytes (cycSucc (adr i) M) (adr i) ∧ v'.turn M adr = cycSucc (adr i) M))))
+        ((∃ g, b = statusRequestBytes g (adr i) ∧ g ∉ M ∧ v'.turn M adr = adr i ∧ v'.ph = .gap g) ∨
+         (b = tokenBytes (cycSucc (adr i) M) (adr i) ∧ v'.turn M adr = cycSucc (adr i) M ∧ v'.ph = .pass) ∨
+         (∃ h pdu, b = frameSpec h pdu ∧ AppP h pdu ∧ v'.turn M adr = adr i ∧ (v'.ph = .holdT ∨ ∃ a, v'.ph = .await a) ∧
+            ∀ st, n.stations[i]? = some st → ∀ P : Header → Bytes → Prop, AnsOk P st.apps → P h pdu))))
 
 theorem LogOk.seenSet {cfg : Cfg} {M : List Nat} {adr : Nat → Nat} {n : Nat} {b : Bus} (h : LogOk cfg M adr n b) (i : Nat) (now : Int) :
     LogOk cfg M adr n { b with seen := b.seen.set i now } :=
@@ -125,6 +180,16 @@ theorem NInv.now_le_H {cfg : Cfg} {M : List Nat} {adr : Nat → Nat} {n : Net} {
     obtain ⟨-, -, -, -, -, hs, hH, -⟩ := hP
     simp only at hs
     omega
+  | holdT =>
+    rw [hph] at hP
+    obtain ⟨-, -, -, -, -, hs, hH, -⟩ := hP
+    simp only at hs
+    omega
+  | await a =>
+    rw [hph] at hP
+    obtain ⟨-, -, -, -, -, hs, hH, -⟩ := hP
+    simp only at hs
+    omega
   | pass =>
     rw [hph] at hP
     obtain ⟨-, -, -, -, -, hH, -, hs⟩ := hP
@@ -139,18 +204,18 @@ theorem stepL_stay {cfg : Cfg} {M : List Nat} {adr : Nat → Nat} {n : Net} {v :
     (hok : cfg.Ok) (j : Nat) (hjx : j ≠ v.x) (now : Int) (e : EvOkN cfg n v.tl j now) (st : NetStation)
     (hst : n.stations[j]? = some st) (hLold : LOk cfg M adr n.bus v.H v.Lo j st) (inc : Bytes) (c : Ctx)
     (hd : n.bus.deliver j now = ({ n.bus with seen := n.bus.seen.set j now }, inc))
-    (hp : st.s.poll [] now (n.bus.transmitting j now) (st.rx ++ inc) = .ok c) (htx : c.tx = none)
+    (hp : st.s.poll st.apps now (n.bus.transmitting j now) (st.rx ++ inc) = .ok c) (htx : c.tx = none)
     (hL : LOk cfg M adr { n.bus with seen := n.bus.seen.set j now } v.H v.Lo j (upSt st c)) :
     NStepOut cfg M adr n v j now := by
   have hp' : st.s.poll st.apps now (Bus.transmitting { n.bus with seen := n.bus.seen.set j now } j now) (st.rx ++ inc) = .ok c := by
-    rw [hLold.1.apps, transmitting_seen]; exact hp
+    rw [transmitting_seen]; exact hp
   have hpe := Net.poll_eq n j now st _ inc c hst hLold.1.alive hLold.1.online hd hp'
   rw [htx] at hpe
   have hjl : j < n.stations.length := e.ilt
   have hjs : j < n.bus.seen.length := by rw [h.log.seen]; exact hjl
   have htl := e.tl
   have hown := e.own
-  refine ⟨_, { v with tl := now }, inc, c, hpe, ?_, rfl, .inl ⟨htx, rfl, rfl⟩⟩
+  refine ⟨_, { v with tl := now }, inc, c, hpe, ?_, rfl, .inl ⟨htx, rfl, rfl, .inl rfl⟩⟩
   refine ⟨by simp only [List.length_set]; exact h.ring, by simp only [List.length_set]; exact h.xlt, ?_, h.okx,
     by simp only [List.length_set]; exact h.log.seenSet j now, h.txs, ?_, h.ownX, ?_, ?_, ?_, h.pbx, h.rxx, ?_⟩
   · simp only; rw [List.getElem?_set_ne hjx]; exact h.gx
@@ -183,6 +248,16 @@ theorem stepL_stay {cfg : Cfg} {M : List Nat} {adr : Nat → Nat} {n : Net} {v :
       rw [seen_set_other _ _ _ _ hjx]
       exact hP
     | gap g =>
+      rw [hph] at hP
+      simp only at hP ⊢
+      rw [seen_set_other _ _ _ _ hjx]
+      exact hP
+    | holdT =>
+      rw [hph] at hP
+      simp only at hP ⊢
+      rw [seen_set_other _ _ _ _ hjx]
+      exact hP
+    | await a =>
       rw [hph] at hP
       simp only at hP ⊢
       rw [seen_set_other _ _ _ _ hjx]
@@ -226,7 +301,7 @@ theorem stepL_accept {cfg : Cfg} {M : List Nat} {adr : Nat → Nat} {n : Net} {v
     (hok : cfg.Ok) (j : Nat) (hjx : j ≠ v.x) (now : Int) (e : EvOkN cfg n v.tl j now) (st : NetStation)
     (hst : n.stations[j]? = some st) (hLold : LOk cfg M adr n.bus v.H v.Lo j st) (inc : Bytes) (c : Ctx)
     (hd : n.bus.deliver j now = ({ n.bus with seen := n.bus.seen.set j now }, inc))
-    (hp : st.s.poll [] now (n.bus.transmitting j now) (st.rx ++ inc) = .ok c) (htx : c.tx = none)
+    (hp : st.s.poll st.apps now (n.bus.transmitting j now) (st.rx ++ inc) = .ok c) (htx : c.tx = none)
     (htok : ∃ t a, n.bus.txs.getLast? = some t ∧ t.bytes = tokenBytes (adr j) a)
     (hokS : StOkN cfg M (upSt st c) (adr j)) (hcst : c.s.st = .useToken ⟨now, none⟩ false)
     (hcl : c.s.lastBusActivity = some now) (hcp : c.s.pendingBytes = 0) (hcr : c.rx = [])
@@ -234,7 +309,7 @@ theorem stepL_accept {cfg : Cfg} {M : List Nat} {adr : Nat → Nat} {n : Net} {v
     (hown : ∀ o ∈ n.bus.txs, o.sender = j → cEnd cfg o ≤ now + 1) :
     NStepOut cfg M adr n v j now := by
   have hp' : st.s.poll st.apps now (Bus.transmitting { n.bus with seen := n.bus.seen.set j now } j now) (st.rx ++ inc) = .ok c := by
-    rw [hLold.1.apps, transmitting_seen]; exact hp
+    rw [transmitting_seen]; exact hp
   have hpe := Net.poll_eq n j now st _ inc c hst hLold.1.alive hLold.1.online hd hp'
   rw [htx] at hpe
   have hjl : j < n.stations.length := e.ilt
@@ -269,6 +344,18 @@ theorem stepL_accept {cfg : Cfg} {M : List Nat} {adr : Nat → Nat} {n : Net} {v
     obtain ⟨-, hb, -⟩ := hP
     rw [hb] at hbt
     exact statusRequest_ne_token _ _ _ _ hbt
+  | holdT =>
+    exfalso
+    rw [hph] at hP
+    obtain ⟨-, ⟨h0, pdu, hb⟩, -⟩ := hP
+    rw [hb] at hbt
+    exact frameSpec_ne_token _ _ _ _ hbt
+  | await a0 =>
+    exfalso
+    rw [hph] at hP
+    obtain ⟨-, ⟨h0, pdu, hb⟩, -⟩ := hP
+    rw [hb] at hbt
+    exact frameSpec_ne_token _ _ _ _ hbt
   | pass =>
     rw [hph] at hP
     obtain ⟨a1, a2, a3, a4, a5, a6, a7, a8⟩ := hP
@@ -293,7 +380,7 @@ theorem stepL_accept {cfg : Cfg} {M : List Nat} {adr : Nat → Nat} {n : Net} {v
       · exact hs
     refine ⟨_, { x := j, sx := upSt st c, pre := v.pre, tr := v.tr, ph := .hold now,
                  H := now + (cfg.b33 : Nat) + (cfg.P : Nat), Lo := now + (cfg.b33 : Nat), tl := now },
-      inc, c, hpe, ?_, rfl, .inl ⟨htx, rfl, ?_⟩⟩
+      inc, c, hpe, ?_, rfl, .inl ⟨htx, rfl, ?_, .inr ⟨now, rfl⟩⟩⟩
     · refine ⟨by simp only [List.length_set]; exact h.ring, by simp only [List.length_set]; exact hjl,
         List.getElem?_set_self hjl, hokS, by simp only [List.length_set]; exact h.log.seenSet j now, h.txs, ?_, ?_, ?_, ?_, ?_,
         hcp, hcr, ?_⟩
@@ -366,6 +453,7 @@ theorem stepL {cfg : Cfg} {M : List Nat} {adr : Nat → Nat} {n : Net} {v : NVie
   · exact stepL_stay h hok j hjx now e st hst hL inc c hd hp htx hL'
   · exact stepL_accept h hok j hjx now e st hst hL inc c hd hp htx htok hokS a1 a2 a3 a4 a5 a6
 
+
 /-! ## Events on the station whose turn it is -/
 
 /-- Nothing is delivered to the station whose turn it is. -/
@@ -382,23 +470,24 @@ def NView.setX (v : NView) (c : Ctx) (now : Int) : NView := { v with sx := upSt 
 /-- A poll of the station whose turn it is that transmits nothing and keeps its phase and stamp. -/
 theorem ninv_quiet_x {cfg : Cfg} {M : List Nat} {adr : Nat → Nat} {n : Net} {v : NView} (h : NInv cfg M adr n v)
     (hok : cfg.Ok) (now : Int) (e : EvOkN cfg n v.tl v.x now) (c : Ctx)
-    (hp : v.sx.s.poll [] now (n.bus.transmitting v.x now) [] = .ok c)
+    (hp : v.sx.s.poll v.sx.apps now (n.bus.transmitting v.x now) [] = .ok c)
     (htx : c.tx = none) (h1 : c.s.p = v.sx.s.p) (h2 : c.s.ring = v.sx.s.ring) (h3 : c.s.online = true)
     (h4 : c.s.pendingBytes = 0) (h5 : c.rx = []) (h6 : c.s.lastBusActivity = v.sx.s.lastBusActivity)
+    (h7 : AnsOk AppP c.apps)
     (hph : PhaseOkN cfg M adr n.stations.length (v.setX c now)
       (fun j => ({ n.bus with seen := n.bus.seen.set v.x now } : Bus).seen.getD j 0)) :
     NStepOut cfg M adr n v v.x now := by
   have hd := h.deliverX hok now (Int.le_of_lt e.own)
   have hp' : v.sx.s.poll v.sx.apps now (Bus.transmitting { n.bus with seen := n.bus.seen.set v.x now } v.x now)
-      (v.sx.rx ++ []) = .ok c := by rw [h.okx.apps, transmitting_seen, h.rxx]; exact hp
+      (v.sx.rx ++ []) = .ok c := by rw [transmitting_seen, h.rxx]; exact hp
   have hpe := Net.poll_eq n v.x now v.sx _ [] c h.gx h.okx.alive h.okx.online hd hp'
   rw [htx] at hpe
   have hxs : v.x < n.bus.seen.length := by rw [h.log.seen]; exact h.xlt
   have htl := e.tl
-  refine ⟨_, v.setX c now, [], c, hpe, ?_, rfl, .inl ⟨htx, rfl, rfl⟩⟩
+  refine ⟨_, v.setX c now, [], c, hpe, ?_, rfl, .inl ⟨htx, rfl, rfl, .inl rfl⟩⟩
   unfold NView.setX at hph ⊢
   refine ⟨by simp only [List.length_set]; exact h.ring, by simp only [List.length_set]; exact h.xlt,
-    List.getElem?_set_self h.xlt, h.okx.step now _ _ c (by rw [← h.okx.apps]; exact hp') h1 (by rw [h2]; exact h.okx.view) h3,
+    List.getElem?_set_self h.xlt, h.okx.step now _ _ c hp' h1 (by rw [h2]; exact h.okx.view) h3 h7,
     by simp only [List.length_set]; exact h.log.seenSet v.x now, h.txs, ?_, ?_, ?_, ?_, ?_, h4, h5, ?_⟩
   · intro o ho
     simp only
@@ -421,17 +510,17 @@ theorem ninv_quiet_x {cfg : Cfg} {M : List Nat} {adr : Nat → Nat} {n : Net} {v
   · intro t ht; exact Int.le_trans (h.tlt t ht) htl
   · simp only [List.length_set]; exact hph
 
-def NView.sendX (v : NView) (c : Ctx) (pre' : List Transmission) (b : Bytes) (ph' : Phase) (H' Lo' : Int) (now : Int) : NView :=
+def NView.sendX (v : NView) (c : Ctx) (pre' : List Transmission) (b : Bytes) (ph' : PhaseN) (H' Lo' : Int) (now : Int) : NView :=
   { x := v.x, sx := upSt v.sx c, pre := pre', tr := { start := now, sender := v.x, bytes := b, dropped := false },
     ph := ph', H := H', Lo := Lo', tl := now }
 
 /-- A poll of the station whose turn it is that transmits `b`. -/
 theorem ninv_send_x {cfg : Cfg} {M : List Nat} {adr : Nat → Nat} {n : Net} {v : NView} (h : NInv cfg M adr n v)
     (hok : cfg.Ok) (hP100 : cfg.P ≤ 100000) (now : Int) (e : EvOkN cfg n v.tl v.x now) (c : Ctx) (b : Bytes)
-    (ph' : Phase) (H' Lo' : Int)
-    (hp : v.sx.s.poll [] now (n.bus.transmitting v.x now) [] = .ok c)
+    (ph' : PhaseN) (H' Lo' : Int)
+    (hp : v.sx.s.poll v.sx.apps now (n.bus.transmitting v.x now) [] = .ok c)
     (htx : c.tx = some b) (h1 : c.s.p = v.sx.s.p) (h2 : RingView M (adr v.x) c.s.ring) (h3 : c.s.online = true)
-    (h4 : c.s.pendingBytes = 0) (h5 : c.rx = []) (hbl : 0 < b.length)
+    (h4 : c.s.pendingBytes = 0) (h5 : c.rx = []) (h7 : AnsOk AppP c.apps) (hbl : 0 < b.length)
     (hkind : TxKind M adr n.stations.length { start := now, sender := v.x, bytes := b, dropped := false })
     (hq1 : v.Lo < now) (hLo : v.Lo ≤ Lo') (hends : ∀ o ∈ n.bus.txs, cEnd cfg o ≤ now)
     (hnotok : ∀ j, j < n.stations.length → j ≠ v.x → ∀ a, v.tr.bytes ≠ tokenBytes (adr j) a)
@@ -442,7 +531,7 @@ theorem ninv_send_x {cfg : Cfg} {M : List Nat} {adr : Nat → Nat} {n : Net} {v 
   have hr := hok.rate
   have hd := h.deliverX hok now (Int.le_of_lt e.own)
   have hp' : v.sx.s.poll v.sx.apps now (Bus.transmitting { n.bus with seen := n.bus.seen.set v.x now } v.x now)
-      (v.sx.rx ++ []) = .ok c := by rw [h.okx.apps, transmitting_seen, h.rxx]; exact hp
+      (v.sx.rx ++ []) = .ok c := by rw [transmitting_seen, h.rxx]; exact hp
   have hpe := Net.poll_eq n v.x now v.sx _ [] c h.gx h.okx.alive h.okx.online hd hp'
   rw [htx] at hpe
   have hxs : v.x < n.bus.seen.length := by rw [h.log.seen]; exact h.xlt
@@ -475,7 +564,7 @@ theorem ninv_send_x {cfg : Cfg} {M : List Nat} {adr : Nat → Nat} {n : Net} {v 
     rw [hh]
     exact List.filter_sublist
   refine ⟨by simp only [List.length_set]; exact h.ring, by simp only [List.length_set]; exact h.xlt,
-    List.getElem?_set_self h.xlt, h.okx.step now _ _ c (by rw [← h.okx.apps]; exact hp') h1 h2 h3, ?_, e1, ?_, ?_, ?_, ?_, ?_,
+    List.getElem?_set_self h.xlt, h.okx.step now _ _ c hp' h1 h2 h3 h7, ?_, e1, ?_, ?_, ?_, ?_, ?_,
     h4, h5, ?_⟩
   · -- the new log
     simp only [List.length_set]
@@ -549,6 +638,7 @@ theorem NInv.phyX {cfg : Cfg} {M : List Nat} {adr : Nat → Nat} {n : Net} {v : 
     (l now : Int) (hl : v.sx.s.lastBusActivity = some l) (hlt : l < now) : n.bus.transmitting v.x now = false :=
   transmitting_listener cfg M adr _ n.bus h.log v.x l now (h.ownX l hl) hlt
 
+
 /-- Phase `hold`, polled before the end of the synchronisation pause. -/
 theorem stepNX_hold_wait {cfg : Cfg} {M : List Nat} {adr : Nat → Nat} {n : Net} {v : NView} (h : NInv cfg M adr n v)
     (hok : cfg.Ok) (p1 : Int) (hph : v.ph = .hold p1) (now : Int) (e : EvOkN cfg n v.tl v.x now)
@@ -561,14 +651,41 @@ theorem stepNX_hold_wait {cfg : Cfg} {M : List Nat} {adr : Nat → Nat} {n : Net
   have hown := e.own
   have hxs : v.x < n.bus.seen.length := by rw [h.log.seen]; exact h.xlt
   have hphy := h.phyX p1 now hlx (by omega)
-  obtain ⟨s', hp, hce, hl', hpb'⟩ := holder_poll_waits v.sx.s [] now p1 d f h.okx.son hst hlx
+  obtain ⟨s', hp, hce, hl', hpb'⟩ := holder_poll_waits v.sx.s v.sx.apps now p1 d f h.okx.son hst hlx
     (by rw [h.okx.b33]; exact hw)
-  refine ninv_quiet_x h hok now e { s := s', apps := [], rx := [] } (by rw [hphy]; exact hp) rfl hce.1 hce.2.1
-    (hce.2.2.1.trans h.okx.son) (hpb'.trans h.pbx) rfl (hl'.trans hlx.symm) ?_
+  refine ninv_quiet_x h hok now e { s := s', apps := v.sx.apps, rx := [] } (by rw [hphy]; exact hp) rfl hce.1 hce.2.1
+    (hce.2.2.1.trans h.okx.son) (hpb'.trans h.pbx) rfl (hl'.trans hlx.symm) h.okx.apps ?_
   unfold PhaseOkN NView.setX upSt
   simp only [hph]
   rw [seen_set_self _ _ _ hxs]
   exact ⟨⟨d, f, hce.2.2.2.2.1.trans hst⟩, hl', htok, hend, by omega, hw, hH, hLo, hp1P⟩
+
+/-- Phase `holdT` (own application telegram sent, no reply expected), polled before the end of the
+synchronisation pause. -/
+theorem stepNX_holdT_wait {cfg : Cfg} {M : List Nat} {adr : Nat → Nat} {n : Net} {v : NView} (h : NInv cfg M adr n v)
+    (hok : cfg.Ok) (hph : v.ph = .holdT) (now : Int) (e : EvOkN cfg n v.tl v.x now)
+    (hw : now ≤ tEnd cfg v.tr + (cfg.b33 : Nat)) : NStepOut cfg M adr n v v.x now := by
+  have hP := h.ph
+  unfold PhaseOkN at hP
+  rw [hph] at hP
+  obtain ⟨hs1, happ, ⟨d, f, hst⟩, hlx, hq, hsx, hH, hLo⟩ := hP
+  simp only at hq hsx
+  have hown := e.own
+  have hxs : v.x < n.bus.seen.length := by rw [h.log.seen]; exact h.xlt
+  have hpoll : ∃ s', v.sx.s.poll v.sx.apps now (n.bus.transmitting v.x now) [] = .ok { s := s', apps := v.sx.apps, rx := [] } ∧
+      CoreEq s' v.sx.s ∧ s'.lastBusActivity = some (tEnd cfg v.tr) ∧ s'.pendingBytes = v.sx.s.pendingBytes := by
+    by_cases hle : now ≤ tEnd cfg v.tr
+    · exact ⟨v.sx.s, poll_ongoing v.sx.s v.sx.apps now _ [] h.okx.son (by rw [hst]; simp) (by rw [hst]; simp) _ hlx hle,
+        ⟨rfl, rfl, rfl, rfl, rfl, rfl⟩, hlx, rfl⟩
+    · rw [h.phyX _ now hlx (by omega)]
+      exact holder_poll_waits v.sx.s v.sx.apps now _ d f h.okx.son hst hlx (by rw [h.okx.b33]; exact hw)
+  obtain ⟨s', hp, hce, hl', hpb'⟩ := hpoll
+  refine ninv_quiet_x h hok now e { s := s', apps := v.sx.apps, rx := [] } hp rfl hce.1 hce.2.1
+    (hce.2.2.1.trans h.okx.son) (hpb'.trans h.pbx) rfl (hl'.trans hlx.symm) h.okx.apps ?_
+  unfold PhaseOkN NView.setX upSt
+  simp only [hph]
+  rw [seen_set_self _ _ _ hxs]
+  exact ⟨hs1, happ, ⟨d, f, hce.2.2.2.2.1.trans hst⟩, hl', by omega, hw, hH, hLo⟩
 
 /-- Phase `gap`, polled before the slot time has expired. -/
 theorem stepNX_gap_wait {cfg : Cfg} {M : List Nat} {adr : Nat → Nat} {n : Net} {v : NView} (h : NInv cfg M adr n v)
@@ -581,16 +698,38 @@ theorem stepNX_gap_wait {cfg : Cfg} {M : List Nat} {adr : Nat → Nat} {n : Net}
   simp only at hq hsx
   have hown := e.own
   have hxs : v.x < n.bus.seen.length := by rw [h.log.seen]; exact h.xlt
-  have hpoll : v.sx.s.poll [] now (n.bus.transmitting v.x now) [] = .ok { s := v.sx.s, apps := [], rx := [] } := by
+  have hpoll : v.sx.s.poll v.sx.apps now (n.bus.transmitting v.x now) [] = .ok { s := v.sx.s, apps := v.sx.apps, rx := [] } := by
     by_cases hle : now ≤ v.tr.start + (cfg.b66 : Nat)
-    · exact poll_ongoing v.sx.s [] now _ [] h.okx.son (by rw [hst]; simp) (by rw [hst]; simp) _ hlx hle
+    · exact poll_ongoing v.sx.s v.sx.apps now _ [] h.okx.son (by rw [hst]; simp) (by rw [hst]; simp) _ hlx hle
     · rw [h.phyX _ now hlx (by omega)]
-      exact await_poll_waits v.sx.s now _ g h.okx.inv h.okx.son hst hlx (by omega) (by rw [h.okx.slot]; omega)
-  refine ninv_quiet_x h hok now e _ hpoll rfl rfl rfl h.okx.son h.pbx rfl rfl ?_
+      exact await_poll_waitsA v.sx.s v.sx.apps now _ g h.okx.inv h.okx.son hst hlx (by omega) (by rw [h.okx.slot]; omega)
+  refine ninv_quiet_x h hok now e _ hpoll rfl rfl rfl h.okx.son h.pbx rfl rfl h.okx.apps ?_
   unfold PhaseOkN NView.setX upSt
   simp only [hph]
   rw [seen_set_self _ _ _ hxs]
   exact ⟨hs1, hb, hst, hlx, by omega, hw, hH, hLo⟩
+
+/-- Phase `await`, polled before the slot time has expired. -/
+theorem stepNX_await_wait {cfg : Cfg} {M : List Nat} {adr : Nat → Nat} {n : Net} {v : NView} (h : NInv cfg M adr n v)
+    (hok : cfg.Ok) (a : Nat) (hph : v.ph = .await a) (now : Int) (e : EvOkN cfg n v.tl v.x now)
+    (hw : now ≤ tEnd cfg v.tr + (cfg.slot : Nat)) : NStepOut cfg M adr n v v.x now := by
+  have hP := h.ph
+  unfold PhaseOkN at hP
+  rw [hph] at hP
+  obtain ⟨hs1, happ, ⟨d, hst⟩, hlx, hq, hsx, hH, hLo⟩ := hP
+  simp only at hq hsx
+  have hown := e.own
+  have hxs : v.x < n.bus.seen.length := by rw [h.log.seen]; exact h.xlt
+  have hpoll : v.sx.s.poll v.sx.apps now (n.bus.transmitting v.x now) [] = .ok { s := v.sx.s, apps := v.sx.apps, rx := [] } := by
+    by_cases hle : now ≤ tEnd cfg v.tr
+    · exact poll_ongoing v.sx.s v.sx.apps now _ [] h.okx.son (by rw [hst]; simp) (by rw [hst]; simp) _ hlx hle
+    · rw [h.phyX _ now hlx (by omega)]
+      exact awaitD_poll_waitsA v.sx.s v.sx.apps now _ a d h.okx.inv h.okx.son hst hlx (by omega) (by rw [h.okx.slot]; omega)
+  refine ninv_quiet_x h hok now e _ hpoll rfl rfl rfl h.okx.son h.pbx rfl rfl h.okx.apps ?_
+  unfold PhaseOkN NView.setX upSt
+  simp only [hph]
+  rw [seen_set_self _ _ _ hxs]
+  exact ⟨hs1, happ, ⟨d, hst⟩, hlx, by omega, hw, hH, hLo⟩
 
 /-- Phase `pass`, the supervising sender is polled: the successor has not even seen the complete token. -/
 theorem stepNX_pass {cfg : Cfg} {M : List Nat} {adr : Nat → Nat} {n : Net} {v : NView} (h : NInv cfg M adr n v)
@@ -610,19 +749,19 @@ theorem stepNX_pass {cfg : Cfg} {M : List Nat} {adr : Nat → Nat} {n : Net} {v 
   have hss := hsucc s hs1' hs2
   rw [hce] at hss
   have hgs := e.gap s hs1'
-  have hpoll : ∃ c', v.sx.s.poll [] now (n.bus.transmitting v.x now) [] = .ok c' ∧ c'.tx = none ∧ c'.s = v.sx.s ∧
-      c'.apps = [] ∧ c'.rx = [] := by
+  have hpoll : ∃ c', v.sx.s.poll v.sx.apps now (n.bus.transmitting v.x now) [] = .ok c' ∧ c'.tx = none ∧ c'.s = v.sx.s ∧
+      c'.apps = v.sx.apps ∧ c'.rx = [] := by
     by_cases hle : now ≤ v.tr.start + (cfg.b33 : Nat)
-    · exact ⟨_, poll_ongoing v.sx.s [] now _ [] h.okx.son (by rw [hst]; simp) (by rw [hst]; simp) _ hlx hle,
+    · exact ⟨_, poll_ongoing v.sx.s v.sx.apps now _ [] h.okx.son (by rw [hst]; simp) (by rw [hst]; simp) _ hlx hle,
         rfl, rfl, rfl, rfl⟩
     · rw [h.phyX _ now hlx (by omega)]
-      obtain ⟨c', hc', htx', hs', ha', hr'⟩ := check_poll_partial v.sx.s now [] .first _ h.okx.inv h.okx.son hst hlx (by omega)
+      obtain ⟨c', hc', htx', hs', ha', hr'⟩ := check_poll_partialA v.sx.s v.sx.apps now [] .first _ h.okx.inv h.okx.son hst hlx (by omega)
         (.inr (by rw [h.okx.slot]; omega)) receiveAll_nil
       simp only [List.length_nil, checkBus_nil] at hs'
       exact ⟨c', hc', htx', hs', ha', hr'⟩
   obtain ⟨c', hc', htx', hs', ha', hr'⟩ := hpoll
   refine ninv_quiet_x h hok now e c' hc' htx' (by rw [hs']) (by rw [hs']) (by rw [hs']; exact h.okx.son)
-    (by rw [hs']; exact h.pbx) hr' (by rw [hs']) ?_
+    (by rw [hs']; exact h.pbx) hr' (by rw [hs']) (by rw [ha']; exact h.okx.apps) ?_
   unfold PhaseOkN NView.setX upSt
   simp only [hph, hs']
   rw [seen_set_self _ _ _ hxs]
@@ -632,346 +771,5 @@ theorem stepNX_pass {cfg : Cfg} {M : List Nat} {adr : Nat → Nat} {n : Net} {v 
     intro e'; rw [e'] at hs'2; exact h.ring.two _ (h.ring.mem v.x h.xlt) hs'2.symm
   rw [seen_set_other _ _ _ _ (Ne.symm hne)]
   exact hsucc s' hs'1 hs'2
-
-theorem bitsN_11_3 (p : Params) : p.bits (11 * 3) = p.bits 33 := rfl
-theorem bitsN_11_6 (p : Params) : p.bits (11 * 6) = p.bits 66 := rfl
-
-theorem nextGapPoll_between (ts ns hsa cur a : Nat) (h : nextGapPoll ts ns hsa cur = .poll a) (hne : ns ≠ ts) :
-    Between ts ns a := by
-  unfold nextGapPoll at h
-  by_cases h0 : hsa = 0
-  · rw [if_pos h0] at h; cases h
-  rw [if_neg h0] at h
-  by_cases h1 : cur ≠ hsa - 1 ∧ cur ≥ 255
-  · rw [if_pos h1] at h; cases h
-  rw [if_neg h1] at h
-  simp only at h
-  generalize (if cur = hsa - 1 then 0 else cur + 1) = nx at h
-  unfold Between
-  by_cases h2 : ns > ts
-  · simp only [h2, if_true, decide_eq_true_eq] at h
-    by_cases hg : nx > ts ∧ nx < ns
-    · rw [if_pos hg] at h; cases h
-      refine ⟨by omega, ?_⟩
-      rw [if_pos (by omega)]; exact hg
-    · rw [if_neg hg] at h; cases h
-  · by_cases h3 : ns < ts
-    · simp only [h2, h3, if_true, if_false, decide_eq_true_eq] at h
-      by_cases hg : nx > ts ∨ nx < ns
-      · rw [if_pos hg] at h; cases h
-        refine ⟨by omega, ?_⟩
-        rw [if_neg (by omega), if_pos h3]; exact hg
-      · rw [if_neg hg] at h; cases h
-    · omega
-
-/-- The station whose turn it is passes the token (from `hold` directly, or after an unanswered GAP request). -/
-theorem stepNX_token {cfg : Cfg} {M : List Nat} {adr : Nat → Nat} {n : Net} {v : NView} (h : NInv cfg M adr n v)
-    (hok : cfg.Ok) (hP100 : cfg.P ≤ 100000) (now : Int) (e : EvOkN cfg n v.tl v.x now) (c : Ctx)
-    (hp : v.sx.s.poll [] now (n.bus.transmitting v.x now) [] = .ok c)
-    (htx : c.tx = some (tokenBytes v.sx.s.ring.ns v.sx.s.p.address))
-    (hring : c.s.ring = v.sx.s.ring.witness v.sx.s.p.address v.sx.s.ring.ns)
-    (hst : c.s.st = (if (v.sx.s.ring.witness v.sx.s.p.address v.sx.s.ring.ns).ns = v.sx.s.p.address
-                then FState.useToken ⟨now, none⟩ false else FState.checkTokenPass .first))
-    (hlast : c.s.lastBusActivity = some (now + (v.sx.s.p.bits (11 * 3) : Nat)))
-    (h1 : c.s.p = v.sx.s.p) (h3 : c.s.online = true) (h4 : c.s.pendingBytes = 0) (h5 : c.rx = [])
-    (hq1 : v.Lo < now) (hends : ∀ o ∈ n.bus.txs, cEnd cfg o ≤ now)
-    (hnotok : ∀ j, j < n.stations.length → j ≠ v.x → ∀ a, v.tr.bytes ≠ tokenBytes (adr j) a)
-    (hturn : v.turn M adr = adr v.x) (hsync : cEnd cfg v.tr + (cfg.b33 : Nat) < now) :
-    NStepOut cfg M adr n v v.x now := by
-  have hc2 := cfg.ce2 hok.rate
-  have hc0 := cfg.ce_pos hok.rate 2
-  have hxs : v.x < n.bus.seen.length := by rw [h.log.seen]; exact h.xlt
-  have hns : v.sx.s.ring.ns = cycSucc (adr v.x) M := h.okx.view.ns.1
-  have hview' : RingView M (adr v.x) (v.sx.s.ring.witness (adr v.x) (cycSucc (adr v.x) M)) := h.okx.view.witness
-  rw [h.okx.addr, hns] at htx hring hst
-  have hst' : c.s.st = .checkTokenPass .first := by
-    rw [hst, hview'.ns.1, if_neg (h.ring.two _ (h.ring.mem v.x h.xlt))]
-  have hlast' : c.s.lastBusActivity = some (now + (cfg.b33 : Nat)) := by
-    rw [hlast, bitsN_11_3, h.okx.bits]; rfl
-  have hLo : v.Lo ≤ now + ((cfg.ce 2 : Nat) : Int) + (cfg.b33 : Nat) := by omega
-  obtain ⟨n', pre', hn', hinv'⟩ := ninv_send_x h hok hP100 now e c _ .pass
-    (now + ((cfg.ce 2 : Nat) : Int) + 2 * (cfg.P : Nat) + (cfg.b33 : Nat)) (now + ((cfg.ce 2 : Nat) : Int) + (cfg.b33 : Nat))
-    hp htx h1 (by rw [hring]; exact hview') h3 h4 h5 (by show 0 < 3; omega)
-    ⟨v.x, h.xlt, rfl, .inl rfl⟩ hq1 hLo hends hnotok
-    (by
-      intro l hl
-      rw [hlast'] at hl
-      cases hl
-      refine ⟨by omega, ?_⟩
-      show now + ((cfg.ce 2 : Nat) : Int) ≤ _
-      omega)
-    (by
-      intro pre'
-      unfold PhaseOkN NView.sendX upSt
-      simp only
-      rw [seen_set_self _ _ _ hxs]
-      refine ⟨trivial, trivial, hst', hlast', Int.le_refl _, rfl, rfl, ?_⟩
-      intro s hs hsa
-      have hne : s ≠ v.x := by
-        intro e'; rw [e'] at hsa; exact h.ring.two _ (h.ring.mem v.x h.xlt) hsa.symm
-      rw [seen_set_other _ _ _ _ (Ne.symm hne)]
-      have := h.tls s hs
-      have := e.tl
-      show _ < now + ((cfg.ce 2 : Nat) : Int)
-      omega)
-  refine ⟨n', _, [], c, hn', hinv', rfl, .inr ⟨_, htx, hturn.symm, hsync, rfl, .inr ⟨rfl, ?_⟩⟩⟩
-  unfold NView.turn NView.sendX
-  rfl
-
-theorem tokenBytes_adr_inj (a b c d : Nat) (ha : a < 256) (hc : c < 256) (h : tokenBytes a b = tokenBytes c d) : a = c := by
-  unfold tokenBytes sendToken at h
-  simp only [List.cons.injEq, and_true, true_and] at h
-  have e1 := congrArg UInt8.toNat h.1
-  rw [u8n a ha, u8n c hc] at e1
-  exact e1
-
-/-- Phase `hold`, the first poll after the synchronisation pause: a GAP request to an address that is not a
-member, or the token to the successor. -/
-theorem stepNX_hold_go {cfg : Cfg} {M : List Nat} {adr : Nat → Nat} {n : Net} {v : NView} (h : NInv cfg M adr n v)
-    (hok : cfg.Ok) (hP100 : cfg.P ≤ 100000) (p1 : Int) (hph : v.ph = .hold p1) (now : Int) (e : EvOkN cfg n v.tl v.x now)
-    (hgo : p1 + (cfg.b33 : Nat) < now) : NStepOut cfg M adr n v v.x now := by
-  have hP := h.ph
-  unfold PhaseOkN at hP
-  rw [hph] at hP
-  obtain ⟨⟨d, f, hst⟩, hlx, ⟨a0, htok⟩, hend, hp1, hsx, hH, hLo, hp1P⟩ := hP
-  simp only at hp1 hsx
-  have hown := e.own
-  have hxs : v.x < n.bus.seen.length := by rw [h.log.seen]; exact h.xlt
-  have hc5 := cfg.ce5 hok.rate
-  have hphy := h.phyX p1 now hlx (by omega)
-  have hax := h.ring.lt v.x h.xlt
-  obtain ⟨c, hp, hinvc, o1, o2, o3, o4, o5, o6, o7⟩ := holder_poll_exact v.sx.s now p1 d f h.okx.inv h.okx.son hst hlx
-    (by rw [h.okx.b33]; exact hgo)
-  have hends : ∀ o ∈ n.bus.txs, cEnd cfg o ≤ now := by
-    intro o ho
-    rcases h.doneX o ho with hs | hs
-    · have := h.ownX p1 hlx o ho hs; omega
-    · omega
-  have hnotok : ∀ j, j < n.stations.length → j ≠ v.x → ∀ a, v.tr.bytes ≠ tokenBytes (adr j) a := by
-    intro j hj hjx a hb
-    rw [htok] at hb
-    have haj := h.ring.lt j hj
-    exact hjx (h.ring.inj j v.x hj h.xlt (tokenBytes_adr_inj _ _ _ _ (by omega) (by omega) hb).symm)
-  have hturn : v.turn M adr = adr v.x := by unfold NView.turn; rw [hph]
-  have hsync : cEnd cfg v.tr + (cfg.b33 : Nat) < now := by omega
-  rcases o7 with ⟨g, cur, hcur, hna, htx, hst', hring, hlast⟩ | ⟨htx, hring, hst', hlast⟩
-  · -- GAP request
-    have hns : v.sx.s.ring.ns = cycSucc (adr v.x) M := h.okx.view.ns.1
-    rw [h.okx.addr, hns] at hcur
-    rw [h.okx.addr] at hna htx
-    have hbtw := nextGapPoll_between _ _ _ _ _ hcur (h.ring.two _ (h.ring.mem v.x h.xlt))
-    have hgM : g ∉ M := fun hm =>
-      no_member_between (adr v.x) _ M (cycSucc_spec _ M) (h.ring.mem v.x h.xlt) g hm hbtw
-    have hg126 : g < 126 := by
-      have h1 := (hinvc.await1 g hst').1
-      have h2 := hinvc.gap g h1
-      have h3 := hinvc.hsa
-      omega
-    have hlast' : c.s.lastBusActivity = some (now + (cfg.b66 : Nat)) := by
-      rw [hlast, bitsN_11_6, h.okx.bits]; rfl
-    obtain ⟨n', pre', hn', hinv'⟩ := ninv_send_x h hok hP100 now e c _ (.gap g)
-      (now + (cfg.b66 : Nat) + (cfg.slot : Nat) + (cfg.P : Nat)) (now + (cfg.b66 : Nat) + (cfg.slot : Nat))
-      (by rw [hphy]; exact hp) htx o4 (by rw [hring]; exact h.okx.view) (o5.trans h.okx.son) (o6.trans h.pbx) o1
-      (by rw [statusRequestBytes_length]; omega)
-      ⟨v.x, h.xlt, rfl, .inr ⟨g, hg126, hgM, rfl⟩⟩ (by omega) (by omega) hends hnotok
-      (by
-        intro l hl
-        rw [hlast'] at hl
-        cases hl
-        refine ⟨by omega, ?_⟩
-        rw [statusRequestBytes_length]
-        show now + ((cfg.ce 5 : Nat) : Int) ≤ _
-        omega)
-      (by
-        intro pre'
-        unfold PhaseOkN NView.sendX upSt
-        simp only
-        rw [seen_set_self _ _ _ hxs]
-        exact ⟨trivial, trivial, hst', hlast', Int.le_refl _, by omega, trivial, trivial⟩)
-    refine ⟨n', _, [], c, hn', hinv', rfl, .inr ⟨_, htx, hturn.symm, hsync, rfl, .inl ⟨g, rfl, hgM, ?_⟩⟩⟩
-    unfold NView.turn NView.sendX
-    rfl
-  · exact stepNX_token h hok hP100 now e c (by rw [hphy]; exact hp) htx hring hst' hlast o4 (o5.trans h.okx.son)
-      (o6.trans h.pbx) o1 (by omega) hends hnotok hturn hsync
-
-/-- Phase `gap`, the first poll after the slot time has expired: the token goes to the successor. -/
-theorem stepNX_gap_timeout {cfg : Cfg} {M : List Nat} {adr : Nat → Nat} {n : Net} {v : NView} (h : NInv cfg M adr n v)
-    (hok : cfg.Ok) (hP100 : cfg.P ≤ 100000) (g : Nat) (hph : v.ph = .gap g) (now : Int) (e : EvOkN cfg n v.tl v.x now)
-    (hex : v.tr.start + (cfg.b66 : Nat) + (cfg.slot : Nat) < now) : NStepOut cfg M adr n v v.x now := by
-  have hP := h.ph
-  unfold PhaseOkN at hP
-  rw [hph] at hP
-  obtain ⟨hs1, hb, hst, hlx, hq, hsx, hH, hLo⟩ := hP
-  simp only at hq hsx
-  have hown := e.own
-  have hmar := hok.margin
-  have hc5 := cfg.ce5 hok.rate
-  have hlen : v.tr.bytes.length = 6 := by rw [hb]; exact statusRequestBytes_length _ _
-  have hce : cEnd cfg v.tr = v.tr.start + ((cfg.ce 5 : Nat) : Int) := by unfold cEnd; rw [hlen]
-  have hphy := h.phyX _ now hlx (by omega)
-  obtain ⟨c, hp, hinvc, o1, o2, o4, o5, o6, htx, hring, hst', hlast⟩ := await_poll_timeout v.sx.s now _ g
-    h.okx.inv h.okx.son hst hlx (by rw [h.okx.slot]; exact hex) (by rw [h.okx.b33, h.okx.slot]; omega)
-  have hends : ∀ o ∈ n.bus.txs, cEnd cfg o ≤ now := by
-    intro o ho
-    rcases h.doneX o ho with hs | hs
-    · have := h.ownX _ hlx o ho hs; omega
-    · omega
-  have hnotok : ∀ j, j < n.stations.length → j ≠ v.x → ∀ a, v.tr.bytes ≠ tokenBytes (adr j) a := by
-    intro j hj hjx a hbt
-    rw [hb] at hbt
-    exact statusRequest_ne_token _ _ _ _ hbt
-  have hturn : v.turn M adr = adr v.x := by unfold NView.turn; rw [hph]
-  exact stepNX_token h hok hP100 now e c (by rw [hphy]; exact hp) htx hring hst' hlast o4 (o5.trans h.okx.son)
-    (o6.trans h.pbx) o1 (by omega) hends hnotok hturn (by rw [hce]; omega)
-
-/-- **One event** of the stable N-station ring. -/
-theorem ringN_step {cfg : Cfg} {M : List Nat} {adr : Nat → Nat} {n : Net} {v : NView} (h : NInv cfg M adr n v)
-    (hok : cfg.Ok) (hP100 : cfg.P ≤ 100000) (i : Nat) (now : Int) (e : EvOkN cfg n v.tl i now) :
-    NStepOut cfg M adr n v i now := by
-  by_cases hix : i = v.x
-  · subst hix
-    cases hph : v.ph with
-    | hold p1 =>
-      by_cases hw : now ≤ p1 + (cfg.b33 : Nat)
-      · exact stepNX_hold_wait h hok p1 hph now e hw
-      · exact stepNX_hold_go h hok hP100 p1 hph now e (by omega)
-    | gap g =>
-      by_cases hw : now ≤ v.tr.start + (cfg.b66 : Nat) + (cfg.slot : Nat)
-      · exact stepNX_gap_wait h hok g hph now e hw
-      · exact stepNX_gap_timeout h hok hP100 g hph now e (by omega)
-    | pass => exact stepNX_pass h hok hph now e
-  · exact stepL h hok i hix now e
-
-/-! ## Whole runs -/
-
-theorem Net.poll_len (n : Net) (i : Nat) (now : Int) : (n.poll i now).1.stations.length = n.stations.length := by
-  unfold Net.poll
-  rcases n.bus.deliver i now with ⟨bus, inc⟩
-  simp only
-  cases n.stations[i]? with
-  | none => rfl
-  | some st =>
-    simp only
-    split
-    · rfl
-    · split <;> simp
-
-theorem Net.poll_seenN (n : Net) (i : Nat) (now : Int) : (n.poll i now).1.bus.seen = n.bus.seen.set i now := by
-  unfold Net.poll
-  rcases hd : n.bus.deliver i now with ⟨bus, inc⟩
-  have hs : bus.seen = n.bus.seen.set i now := by
-    have : (n.bus.deliver i now).1.seen = n.bus.seen.set i now := rfl
-    rw [hd] at this
-    exact this
-  simp only
-  cases n.stations[i]? with
-  | none => exact hs
-  | some st =>
-    simp only
-    split
-    · exact hs
-    · split
-      · exact hs
-      · rename_i c _
-        cases c.tx with
-        | none => exact hs
-        | some b => exact hs
-
-/-- The schedule: events `(station, time)` in time order, every station's own poll times strictly increasing,
-at every event no station unpolled for more than `P`. -/
-def SchedN (P : Nat) : Net → Int → List (Nat × Int) → Prop
-  | _, _, [] => True
-  | n, tl, (i, now) :: rest =>
-    i < n.stations.length ∧ tl ≤ now ∧ n.bus.seen.getD i 0 < now ∧
-    (∀ j, j < n.stations.length → now ≤ n.bus.seen.getD j 0 + (P : Nat)) ∧ SchedN P (n.poll i now).1 now rest
-
-/-- The same as a condition on poll times only (`seen`: last poll times, `N`: number of stations). -/
-def SchedNT (P N : Nat) : List Int → Int → List (Nat × Int) → Prop
-  | _, _, [] => True
-  | seen, tl, (i, now) :: rest =>
-    i < N ∧ tl ≤ now ∧ seen.getD i 0 < now ∧ (∀ j, j < N → now ≤ seen.getD j 0 + (P : Nat)) ∧
-    SchedNT P N (seen.set i now) now rest
-
-theorem schedN_of_times (P : Nat) : ∀ (evs : List (Nat × Int)) (n : Net) (tl : Int),
-    SchedNT P n.stations.length n.bus.seen tl evs → SchedN P n tl evs := by
-  intro evs
-  induction evs with
-  | nil => intro _ _ _; trivial
-  | cons ev rest ih =>
-    intro n tl h
-    obtain ⟨i, now⟩ := ev
-    obtain ⟨h1, h2, h3, h4, h5⟩ := h
-    exact ⟨h1, h2, h3, h4, ih _ now (by rw [Net.poll_seenN, Net.poll_len]; exact h5)⟩
-
-/-- What a run of the stable ring looks like (`turn`: ADDRESS of the station whose turn it is, `lastEnd`: end
-of the last transmission): every poll returns regularly; only the station whose turn it is transmits; every
-transmission starts later than 33 bit times after the end of the previous one; it is a GAP request to an
-address that is not a member (the turn stays) or the token to the cyclic successor in the ascending member
-list (the turn passes to it).  Nobody claims, retries or replies. -/
-def GoodRunN (cfg : Cfg) (M : List Nat) (adr : Nat → Nat) : Net → Nat → Int → List (Nat × Int) → Prop
-  | _, _, _, [] => True
-  | n, turn, lastEnd, (i, now) :: rest =>
-    ∃ n' inc c, n.poll i now = (n', inc, some (.ok c)) ∧
-      ((c.tx = none ∧ GoodRunN cfg M adr n' turn lastEnd rest) ∨
-       (∃ b, c.tx = some b ∧ adr i = turn ∧ lastEnd + (cfg.b33 : Nat) < now ∧
-          ((∃ g, b = statusRequestBytes g (adr i) ∧ g ∉ M ∧
-              GoodRunN cfg M adr n' (adr i) (now + (cfg.ce (b.length - 1) : Nat)) rest) ∨
-           (b = tokenBytes (TokenRing.cycSucc (adr i) M) (adr i) ∧
-              GoodRunN cfg M adr n' (TokenRing.cycSucc (adr i) M) (now + (cfg.ce (b.length - 1) : Nat)) rest))))
-
-theorem ringN_run {cfg : Cfg} (hok : cfg.Ok) (hP100 : cfg.P ≤ 100000) (M : List Nat) (adr : Nat → Nat) :
-    ∀ (evs : List (Nat × Int)) (n : Net) (v : NView), NInv cfg M adr n v → SchedN cfg.P n v.tl evs →
-    GoodRunN cfg M adr n (v.turn M adr) (cEnd cfg v.tr) evs := by
-  intro evs
-  induction evs with
-  | nil => intro _ _ _ _; trivial
-  | cons ev rest ih =>
-    intro n v h hs
-    obtain ⟨i, now⟩ := ev
-    obtain ⟨hi, htl, hown, hgap, hrest⟩ := hs
-    have e : EvOkN cfg n v.tl i now := ⟨hi, htl, hown, hgap⟩
-    obtain ⟨n', v', inc, c, hp, hinv', htl', hcase⟩ := ringN_step h hok hP100 i now e
-    have hn' : (n.poll i now).1 = n' := by rw [hp]
-    rw [hn', ← htl'] at hrest
-    have ih' := ih n' v' hinv' hrest
-    refine ⟨n', inc, c, hp, ?_⟩
-    rcases hcase with ⟨htx, htr, hnx⟩ | ⟨b, htx, hit, hsync, htr, hkind⟩
-    · left
-      rw [hnx, htr] at ih'
-      exact ⟨htx, ih'⟩
-    · right
-      have hend : cEnd cfg v'.tr = now + ((cfg.ce (b.length - 1) : Nat) : Int) := by rw [htr]; rfl
-      rw [hend] at ih'
-      refine ⟨b, htx, hit, hsync, ?_⟩
-      rcases hkind with ⟨g, hb, hg, hnx⟩ | ⟨hb, hnx⟩
-      · left; rw [hnx] at ih'; exact ⟨g, hb, hg, ih'⟩
-      · right; rw [hnx] at ih'; exact ⟨hb, ih'⟩
-
-/-- The net after a run. -/
-def Net.afterN (n : Net) (evs : List (Nat × Int)) : Net := evs.foldl (fun n e => (n.poll e.1 e.2).1) n
-
-theorem ringN_inv_run {cfg : Cfg} (hok : cfg.Ok) (hP100 : cfg.P ≤ 100000) (M : List Nat) (adr : Nat → Nat) :
-    ∀ (evs : List (Nat × Int)) (n : Net) (v : NView), NInv cfg M adr n v → SchedN cfg.P n v.tl evs →
-    ∃ v', NInv cfg M adr (n.afterN evs) v' := by
-  intro evs
-  induction evs with
-  | nil => intro n v h _; exact ⟨v, h⟩
-  | cons ev rest ih =>
-    intro n v h hs
-    obtain ⟨i, now⟩ := ev
-    obtain ⟨hi, htl, hown, hgap, hrest⟩ := hs
-    have e : EvOkN cfg n v.tl i now := ⟨hi, htl, hown, hgap⟩
-    obtain ⟨n', v', inc, c, hp, hinv', htl', -⟩ := ringN_step h hok hP100 i now e
-    have hn' : (n.poll i now).1 = n' := by rw [hp]
-    rw [hn', ← htl'] at hrest
-    obtain ⟨v'', h1⟩ := ih n' v' hinv' hrest
-    refine ⟨v'', ?_⟩
-    show NInv cfg M adr (Net.afterN (n.poll i now).1 rest) v''
-    rw [hn']; exact h1
-
-/-- Silence bound: at every event the end of the last transmission lies at most `Tslot + 2P + bits 33` back. -/
-theorem ringN_silence {cfg : Cfg} {M : List Nat} {adr : Nat → Nat} {n : Net} {v : NView} (h : NInv cfg M adr n v)
-    (hok : cfg.Ok) (i : Nat) (now : Int) (e : EvOkN cfg n v.tl i now) : now ≤ cEnd cfg v.tr + (cfg.gmax : Nat) :=
-  Int.le_trans (h.now_le_H i now e) (h.horizon hok)
 
 end PV
